@@ -23,9 +23,11 @@ use rustc_span::Span;
 use std::collections::HashMap;
 use std::fmt::Write as _;
 
+mod mono;
+
 struct Cb;
 
-fn esc(s: &str, out: &mut String) {
+pub fn esc(s: &str, out: &mut String) {
     out.push('"');
     for c in s.chars() {
         match c {
@@ -43,7 +45,7 @@ fn esc(s: &str, out: &mut String) {
     out.push('"');
 }
 
-fn trunc(s: String, n: usize) -> String {
+pub fn trunc(s: String, n: usize) -> String {
     if s.len() <= n {
         s
     } else {
@@ -733,7 +735,18 @@ impl rustc_driver::Callbacks for Cb {
             }
             out.push(']');
         }
-        out.push_str("}}");
+        out.push_str("},\"mono\":");
+        {
+            let mut mono = mono::Mono::new(tcx);
+            let keys: Vec<LocalDefId> = tcx.mir_keys(()).iter().copied().collect();
+            let mut keys = keys;
+            keys.sort_by_key(|d| tcx.def_path_str(d.to_def_id()));
+            mono.add_roots(&keys);
+            mono.run();
+            eprintln!("mirfacts: mono graph {} instances, {} roots, {} failures", mono.nodes.len(), mono.roots.len(), mono.failures);
+            mono.dump(&mut out);
+        }
+        out.push('}');
         let tmp = format!("{}.tmp{}", outp, std::process::id());
         std::fs::write(&tmp, out.as_bytes()).expect("write facts");
         std::fs::rename(&tmp, &outp).expect("rename facts");
